@@ -83,7 +83,12 @@ func execHist(r *R) string {
 				}
 			}
 			if isXR && err == nil {
-				snapState = bodyTokens(p) // documented exception: block headers are filled in
+				// documented exception: the blocks' header fields (block type, type-specific octet, block length) are
+				// filled in — and nothing else
+				if xrNonHeader(p) != xrNonHeader(getBody(NewR(snapState), "XR")) {
+					return fmt.Sprintf("mutated step=%d packet (a field other than the blocks' header fields)", i)
+				}
+				snapState = bodyTokens(p)
 			}
 			if isXR && canaries != nil && err == nil {
 				canaries.resnap() // the documented exception writes the blocks' header fields
@@ -151,3 +156,17 @@ func hexOrDash(b []byte) string {
 }
 
 var _ = rtcp.Header{}
+
+// xrNonHeader: an extended report's tokens with every block's XRHeader zeroed
+func xrNonHeader(p rtcp.Packet) string {
+	x, ok := p.(*rtcp.ExtendedReport)
+	if !ok {
+		return bodyTokens(p)
+	}
+	c := &rtcp.ExtendedReport{SenderSSRC: x.SenderSSRC}
+	for _, b := range x.Reports {
+		_, omits, vals, elems := xrParts(b)
+		c.Reports = append(c.Reports, xrBuild(xrKindOf(b), rtcp.XRHeader{}, omits, vals, elems))
+	}
+	return bodyTokens(c)
+}
